@@ -9,6 +9,7 @@
 #include <bxdecay0/event.h>
 #include <bxdecay0/i_random.h>
 #include "pool.hpp"
+#include "sanhook.hpp"
 #include "stream.hpp"
 #include <algorithm>
 #include <cmath>
